@@ -14,12 +14,18 @@ import (
 func c16CompareContents(chunkA, chunkB bool, failA, failB int) {
 	max := vp.Bound("filelen", 6, 10)
 	calls := vp.Bound("readcalls", 4, 6)
+	if chunkA || chunkB {
+		// symbolic piece boundaries make every byte an ite chain: smaller bounds
+		max = vp.Bound("filelen.chunked", 4, 8)
+		calls = vp.Bound("readcalls.chunked", 3, 5)
+	}
 	fa := c16SymFile("f", "a", max)
 	fb := c16SymFile("f", "b", max)
 	A := c16NewFS("A", c16Dir(".", fa))
 	B := c16NewFS("B", c16Dir(".", fb))
 	A.chunked, B.chunked = chunkA, chunkB
 	A.maxCall, B.maxCall = calls, calls
+	A.store, B.store = max, max
 	A.failRead, B.failRead = failA, failB
 	vp.Unwind(calls + 3)
 	vp.NoPanic()
@@ -74,11 +80,11 @@ func VP_C16_compare_contents_err_a1() { c16CompareContents(false, false, 1, -1) 
 func VP_C16_compare_contents_err_b0() { c16CompareContents(false, false, -1, 0) }
 func VP_C16_compare_contents_err_b1() { c16CompareContents(true, true, -1, 1) }
 
-// VP_C16_compare_contents_big: two sparse all-zero files of arbitrary lengths 0..3*32 KiB+9, i.e.
+// VP_C16_compare_contents_big: two sparse all-zero files of arbitrary lengths 0..32 KiB+9 (thorough: 3*32 KiB+9), i.e.
 // longer than the 32 KiB comparison buffer, both read with full reads (EOF timing arbitrary):
 // the multi-round logic of the loop. Oracle: nil <=> equal lengths.
 func VP_C16_compare_contents_big() {
-	max := vp.Bound("biglen", 2*32768+9, 3*32768+9)
+	max := vp.Bound("biglen", 32768+9, 3*32768+9)
 	fa := c16BigFile("f", "a", max)
 	fb := c16BigFile("f", "b", max)
 	A := c16NewFS("A", c16Dir(".", fa))
